@@ -26,7 +26,7 @@ def plan(tier, seed):
 
 def thresholds(tier):
   t = {"programs": 220, "cycles_cosimulated": 5000, "driver_sets_analysed": 3000, "corpus_cases_cosimulated": 50,
-       "stdlib_components_cosimulated": 60, "generated_designs_cosimulated": 150, "param_designs_cosimulated": 60, "svsim_lrm_examples_ok": 22,
+       "stdlib_components_cosimulated": 60, "generated_designs_cosimulated": 150, "param_designs_cosimulated": 60, "svsim_lrm_examples_ok": 24,
        "struct_leaf_ports_mapped": 300, "array_element_ports_mapped": 300}
   if tier == "thorough":
     t.update({"programs": 4000, "generated_designs_cosimulated": 3500, "cycles_cosimulated": 80000})
